@@ -48,6 +48,9 @@ type kvsLock struct {
 	future  atomic.Value     // timeout.Future
 	lckCntr int32
 	waiters int32
+	// tenure is changed by every successful acquisition and by every Unlock, the lease
+	// renewal of a tenure stops as soon as it sees another value
+	tenure int64
 }
 
 // LockProvider helper interface to indicate that the object has
@@ -111,7 +114,8 @@ func (l *kvsLock) TryLock(ctx context.Context) bool {
 		Value:     cast.StringToByteArray(""),
 		ExpiresAt: cast.Ptr(time.Now().Add(l.dlp.leaseTTL)),
 	}); err == nil {
-		l.future.Store(timeout.Call(func() { l.supportTimeout(ver) }, l.dlp.leaseTTL/2))
+		tenure := atomic.AddInt64(&l.tenure, 1)
+		l.future.Store(timeout.Call(func() { l.supportTimeout(ver, tenure) }, l.dlp.leaseTTL/2))
 		return true
 	}
 	atomic.StoreInt32(&l.lckCntr, 0)
@@ -138,6 +142,8 @@ func (l *kvsLock) Unlock() {
 		l.dlp.logger.Errorf("kvsLock.Unlock(): wrong object state: %s", l.String())
 		panic("kvsLock: an attempt to unlock not-locked object " + l.String())
 	}
+	// the tenure is over: its renewal must die out whatever happens to the record below
+	atomic.AddInt64(&l.tenure, 1)
 
 	future := l.future.Load().(timeout.Future)
 	future.Cancel()
@@ -174,7 +180,8 @@ func (l *kvsLock) lockWithCtx(ctx context.Context) error {
 			ExpiresAt: cast.Ptr(time.Now().Add(l.dlp.leaseTTL)),
 		})
 		if err == nil {
-			l.future.Store(timeout.Call(func() { l.supportTimeout(ver) }, l.dlp.leaseTTL/2))
+			tenure := atomic.AddInt64(&l.tenure, 1)
+			l.future.Store(timeout.Call(func() { l.supportTimeout(ver, tenure) }, l.dlp.leaseTTL/2))
 			return nil
 		}
 
@@ -193,7 +200,11 @@ func (l *kvsLock) lockWithCtx(ctx context.Context) error {
 // the function is tricky, cause it uses CAS operation to update the record version and if the version
 // is updated, it recharges the timeout. This is where the new raise can happen and the new future may
 // overwrite the future flag stored in the atomic.
-func (l *kvsLock) supportTimeout(ver string) {
+func (l *kvsLock) supportTimeout(ver string, tenure int64) {
+	if atomic.LoadInt64(&l.tenure) != tenure {
+		// the tenure this renewal belongs to is over (Unlock was called): nothing to keep alive
+		return
+	}
 	future := l.future.Load().(timeout.Future)
 	r, err := l.dlp.Storage.CasByVersion(context.Background(), kvs.Record{
 		Key:       l.key,
@@ -202,19 +213,24 @@ func (l *kvsLock) supportTimeout(ver string) {
 		ExpiresAt: cast.Ptr(time.Now().Add(l.dlp.leaseTTL)),
 	})
 	if err != nil {
-		if errors.Is(err, errors.ErrNotExist) || errors.Is(err, errors.ErrConflict) || !l.isLocked() {
+		if errors.Is(err, errors.ErrNotExist) || errors.Is(err, errors.ErrConflict) || !l.isLocked() || atomic.LoadInt64(&l.tenure) != tenure {
 			l.dlp.logger.Debugf("supportTimeout raise detected, just do nothing for the key=%s, err=%s", l.key, err)
 			return
 		}
 		// the storage error is transient, the lock is still held: try again soon, before the lease is over
 		l.dlp.logger.Warnf("supportTimeout could not refresh the key=%s, will try again: %s", l.key, err)
-		retryFuture := timeout.Call(func() { l.supportTimeout(ver) }, l.dlp.leaseTTL/8)
+		retryFuture := timeout.Call(func() { l.supportTimeout(ver, tenure) }, l.dlp.leaseTTL/8)
 		if !l.future.CompareAndSwap(future, retryFuture) {
 			retryFuture.Cancel()
 		}
 		return
 	}
-	newFuture := timeout.Call(func() { l.supportTimeout(r.Version) }, l.dlp.leaseTTL/2)
+	if atomic.LoadInt64(&l.tenure) != tenure {
+		// Unlock came while the call was in flight (and could not delete the record, or this
+		// call re-created nothing): the record is left to its lease, no new timer is armed
+		return
+	}
+	newFuture := timeout.Call(func() { l.supportTimeout(r.Version, tenure) }, l.dlp.leaseTTL/2)
 	if !l.future.CompareAndSwap(future, newFuture) {
 		// somebody already started the new timer, so drop this and forget about the incident
 		l.dlp.logger.Debugf("supportTimeout raise 2 detected, just cancelling the call timeout")
